@@ -12,6 +12,7 @@ def sig_of(clause, op):
 
 def run(ctx):
     ctx.trusted_base += [
+        "wiring harness harness/tcphandlers/verif_c11_test.go: the real TCP handler built with a vetting threshold different from the cache size; the scheduler's IsVetting after each accepted share",
         "tools/gofacts: AllocationMinJob/MinDuration/HashratePredictionAdjustment (Gen.C11) and the conversions (Gen.C20) regenerated each run",
         "correspondence harness harness/allocator/verif_c11_test.go: real Allocator over real Schedulers with fake proxies; the handed-out tasks are read back from the queues",
         "modelled, not verified: Model/Alloc.lean (hand-written from allocator.go and the status predicates of scheduler.go)",
@@ -47,6 +48,32 @@ def run(ctx):
             L.violation(ctx, sig_of(body[5:], op), body[5:] + " @ " + op, {"clause": body[5:], "case": case, "ops": ops})
         elif body.startswith("CORR ") and not any("correspondence" in t for t in ctx.tie_failures):
             ctx.tie_failures.append("correspondence broken: %s @ %s (%s)" % (body[5:], op, case))
+    # wiring: the vetting threshold the allocator's eligibility test relies on reaches the proxy as configured (real TCP handler
+    # with MINER_VETTING_SHARES = V, PROXY_MAX_CACHED_DESTS = M; after each accepted share: still vetting iff fewer than V shares)
+    wexe = L.build_harness(ctx, "tcphandlers")
+    wiring_rows = 0
+    if wexe:
+        rc, out = L.run_harness(ctx, wexe, "TestVerifC11Wiring$", env={}, timeout=300)
+        if rc != 0:
+            ctx.tie_failures.append("wiring harness run failed (rc=%d): %s" % (rc, out[-300:]))
+        else:
+            seen_w = set()
+            for h, lines in L.parse_cases(ctx.out + "/c11w.impl.txt"):
+                v = None
+                for l in lines:
+                    if l.startswith("> wiring"):
+                        v = int(dict(t.split("=") for t in l.split()[2:])["vetting"])
+                        opl = l
+                    elif l.startswith("< shares=") and v is not None:
+                        wiring_rows += 1
+                        kv = dict(t.split("=") for t in l.split()[1:])
+                        k, vet = int(kv["shares"]), kv["vetting"] == "1"
+                        if vet != (k < v) and "c11:wiring" not in seen_w:
+                            seen_w.add("c11:wiring")
+                            L.violation(ctx, "c11:vetting-threshold-not-the-configured-one",
+                                        "with MINER_VETTING_SHARES=%d the miner counts as %s after %d accepted shares: the eligibility test of the allocator lets a miner that is not past vetting receive tasks (or keeps a vetted one out)" % (v, "vetting" if vet else "vetted", k),
+                                        {"clause": "only miners past vetting receive tasks", "case": h, "ops": [opl]})
+    ctx.coverage["wiring_observations"] = wiring_rows
     nalloc = sum(1 for h, ls in cases for l in ls if l.startswith("< alloc"))
     calls = {}
     nontrivial = set()
